@@ -49,6 +49,12 @@ def build(v):
             a = big[::2]
         elif lay == 'T' and a.ndim == 2:
             a = np.ascontiguousarray(a.T).T
+        elif lay == 'rev' and a.ndim >= 1:
+            a = np.ascontiguousarray(a[::-1])[::-1]                 # negative stride, offset at the last row
+        elif lay == 'off' and a.ndim >= 1:
+            big = np.zeros((a.shape[0] + 2,) + a.shape[1:], dtype=a.dtype)
+            big[1:-1] = a
+            a = big[1:-1]                                            # non-zero offset into the buffer
         return a
     if t == 'list':
         return [build(x) for x in v['v']]
@@ -57,7 +63,27 @@ def build(v):
     raise ValueError(t)
 
 
-def to_lean(v):
+def mem_layout(a):
+    """the array as NumPy has it: strides and offset in items, and the owner's buffer in memory order"""
+    if a.size == 0:
+        return [0] * a.ndim, 0, a.reshape(-1)
+    b = a
+    while isinstance(b.base, np.ndarray):
+        b = b.base
+    isz = a.itemsize
+    off = (a.__array_interface__['data'][0] - b.__array_interface__['data'][0]) // isz
+    flat = np.lib.stride_tricks.as_strided(b, (b.size,), (isz,))
+    return [st // isz for st in a.strides], off, flat
+
+
+def _r(x):
+    """canonical text of one element (Python scalar of the element)"""
+    return repr(x.item() if isinstance(x, np.generic) else x)
+
+
+def to_lean(v, mem):
+    """case value -> Lean value. Arrays are sent with their real memory layout; the items of the k-th array's
+    buffer are the tokens (k+1)*10**6 + memory position, and `mem[k]` keeps the text of the value stored there"""
     t = v['t']
     if t == 'float':
         return dict(t='float', v=abs(hash(repr(v['f']))) % 100000)
@@ -66,12 +92,16 @@ def to_lean(v):
             return dict(t='float', v=abs(hash(repr(float(v['v'])))) % 100000)
         return dict(t='np', v=int(v['v']))
     if t == 'arr':
-        a = build(v)        # the array actually handed to save_json (layout tricks may change its shape)
-        return dict(t='arr', dtype=str(a.dtype), shape=list(a.shape), items=[1000000 + i for i in range(a.size)])
+        a = build(v)        # the array actually handed to save_json (layout tricks may change its strides)
+        strides, off, flat = mem_layout(a)
+        k = len(mem)
+        mem.append([_r(x) for x in flat])
+        return dict(t='arr', dtype=str(a.dtype), shape=list(a.shape), strides=strides, offset=off,
+                    mem=[(k + 1) * 1000000 + i for i in range(len(flat))])
     if t == 'list':
-        return dict(t='list', v=[to_lean(x) for x in v['v']])
+        return dict(t='list', v=[to_lean(x, mem) for x in v['v']])
     if t == 'dict':
-        return dict(t='dict', v=[[k, to_lean(x)] for k, x in v['v']])
+        return dict(t='dict', v=[[k, to_lean(x, mem)] for k, x in v['v']])
     return v
 
 
@@ -88,9 +118,12 @@ def shape_of(x):
     if isinstance(x, str):
         return dict(t='str', v=x)
     if isinstance(x, np.ndarray):
-        return dict(t='arr', dtype=str(x.dtype), shape=list(x.shape))
+        return dict(t='arr', dtype=str(x.dtype), shape=list(x.shape), vals=[_r(y) for y in x.reshape(-1)])
     if isinstance(x, list):
-        return dict(t='list', v=[shape_of(y) for y in x])
+        d = dict(t='list', v=[shape_of(y) for y in x])
+        if all(isinstance(y, (bool, int, float, complex)) for y in x):
+            d['vals'] = [_r(y) for y in x]
+        return d
     if isinstance(x, dict):
         return dict(t='dict', v=sorted([[k, shape_of(y)] for k, y in x.items()], key=lambda e: e[0]))
     return dict(t='other', v=type(x).__name__)
@@ -101,7 +134,7 @@ def lean_shape(v):
     if t == 'float':
         return dict(t='float')
     if t == 'arr':
-        return dict(t='arr', dtype=v['dtype'], shape=v['shape'])
+        return dict(t='arr', dtype=v['dtype'], shape=v['shape'], items=v['items'])
     if t == 'list':
         return dict(t='list', v=[lean_shape(x) for x in v['v']])
     if t == 'dict':
@@ -111,16 +144,26 @@ def lean_shape(v):
     return v
 
 
-def match_shape(real, lean):
-    """structure of the really loaded value vs the Lean result"""
-    if lean['t'] == 'list' and lean['v'] and all(x.get('t') == 'int' and x['v'] >= 1000000 for x in lean['v']):
-        return real['t'] == 'list' and len(real['v']) == len(lean['v']) and all(x['t'] in ('int', 'float', 'bool') for x in real['v'])
+def _vals(items, mem):
+    return [mem[i // 1000000 - 1][i % 1000000] for i in items]
+
+
+def match_shape(real, lean, mem):
+    """structure and array contents of the really loaded value vs the Lean result (`mem`: text of the value at
+    each buffer position of each saved array)"""
+    if lean['t'] == 'list' and lean['v'] and all(x.get('t') == 'int' and 10 ** 6 <= x['v'] < 10 ** 9 for x in lean['v']):
+        # a short 1-D array: comes back as the list of its elements in index order
+        return real['t'] == 'list' and real.get('vals') == _vals([x['v'] for x in lean['v']], mem)
     if lean['t'] != real['t']:
         return False
     if lean['t'] == 'list':
-        return len(lean['v']) == len(real['v']) and all(match_shape(r, l) for r, l in zip(real['v'], lean['v']))
+        return len(lean['v']) == len(real['v']) and all(match_shape(r, l, mem) for r, l in zip(real['v'], lean['v']))
     if lean['t'] == 'dict':
-        return [k for k, _ in lean['v']] == [k for k, _ in real['v']] and all(match_shape(r[1], l[1]) for r, l in zip(real['v'], lean['v']))
+        return [k for k, _ in lean['v']] == [k for k, _ in real['v']] and \
+            all(match_shape(r[1], l[1], mem) for r, l in zip(real['v'], lean['v']))
+    if lean['t'] == 'arr':
+        return real['dtype'] == lean['dtype'] and real['shape'] == lean['shape'] and \
+            real['vals'] == _vals(lean['items'], mem)
     return real == lean
 
 
@@ -160,7 +203,6 @@ def impl(case):
             data = {(k['int'] if 'int' in k else k['str']): build(v) for k, v in case['dict']}
             M.save_json(d / 'x.json', data)
             out = M.load_json(d / 'x.json')
-            keys_ok = list(out.keys()) == sorted(data.keys(), key=lambda k: str(k)) or set(out.keys()) == set(data.keys())
             return dict(keys=[[type(k).__name__, k] for k in out.keys()],
                         same=bool(set(out.keys()) == set(data.keys()) and all(type(k) in (int, str) for k in out) and
                                   all(same(data[k], out[k]) for k in data)),
@@ -197,7 +239,8 @@ def impl(case):
 
 def model_query(case, impl_res):
     if case['op'] == 'json':
-        return dict(p=PID, op='json', dict=[[k, to_lean(v)] for k, v in case['dict']])
+        case['_mem'] = mem = []
+        return dict(p=PID, op='json', dict=[[k, to_lean(v, mem)] for k, v in case['dict']])
     if case['op'] == 'tsv':
         rows = [[[f, ({'float': abs(hash('%.4f' % c['float'])) % 100000} if 'float' in c else c)] for f, c in r] for r in case['rows']]
         return dict(p=PID, op='tsv', rows=rows, first=case.get('first'))
@@ -220,8 +263,8 @@ def judge(case, impl_res, ans):
             exp_keys = [[('int' if 'int' in k else 'str'), (k['int'] if 'int' in k else k['str'])] for k, v in case['dict']]
             return 'SPEC: loaded dictionary differs from the saved one (keys loaded %s, saved %s)' % (ok['keys'], exp_keys)
         exp = {str(k['int'] if 'int' in k else k['str']): lean_shape(v) for k, v in m['model']}
-        if set(ok['shape']) != set(exp) or not all(match_shape(ok['shape'][k], exp[k]) for k in exp):
-            return 'CORR: structure of the loaded value differs from the model'
+        if set(ok['shape']) != set(exp) or not all(match_shape(ok['shape'][k], exp[k], case['_mem']) for k in exp):
+            return 'CORR: structure / array contents of the loaded value differ from the model'
         return None
     if op == 'tsv':
         fields = []
@@ -326,7 +369,7 @@ def rand_value(rng, depth=0):
     if t == 'arr':
         rank = rng.pick([0, 1, 1, 1, 2, 3])
         shape = [rng.pick([0, 1, 2, 3, 9, 10, 11, 12]) for _ in range(rank)] if rank == 1 else [rng.pick([0, 1, 2, 3, 4]) for _ in range(rank)]
-        return dict(t='arr', dtype=rng.pick(DTYPES), shape=shape, layout=rng.pick(['C', 'F', 'strided', 'T']), nan=rng.random() < .3)
+        return dict(t='arr', dtype=rng.pick(DTYPES), shape=shape, layout=rng.pick(['C', 'F', 'strided', 'T', 'rev', 'off']), nan=rng.random() < .3)
     if t == 'list':
         return dict(t='list', v=[rand_value(rng, depth + 1) for _ in range(rng.randrange(0, 4))])
     keys = rng.sample(['a', 'b', 'key', 'x y', '7', 'dtype', 'shape'], rng.randrange(0, 4))
@@ -338,7 +381,7 @@ def gen(tier, rng):
     # JSON: systematic arrays first
     for dt in DTYPES:
         for shape in ([], [0], [1], [9], [10], [11], [2, 3], [0, 2], [2, 1, 3], [12]):
-            for lay in ('C', 'F', 'strided', 'T'):
+            for lay in ('C', 'F', 'strided', 'T', 'rev', 'off'):
                 yield dict(p=PID, op='json', dict=[[{'int': -1}, dict(t='arr', dtype=dt, shape=shape, layout=lay, nan=True)],
                                                    [{'str': 'k'}, dict(t='int', v=1)]])
     for key in ({'int': 0}, {'int': -1}, {'int': -12}, {'int': 10 ** 9}, {'str': 'abc'}, {'str': '-x'}, {'str': '1.5'}, {'str': ''}, {'str': '-'}):
